@@ -31,7 +31,7 @@ PT_TOL = 1e-9
 
 def floors(tier):
     return {"judged": 3000, "partition_none_free": 50, "partition_some_free": 1000, "partition_all_free": 300,
-            "binding_truncation": 300, "intercepted_calls": 300, "inputs_with_idle_free_variables": 300, "descent_checked": 2000, "__nontrivial__": 250}
+            "binding_truncation": 300, "intercepted_calls": 300, "inputs_with_idle_free_variables": 300, "restarted_runs": 20, "restarted_runs_with_gradient_scaler": 8, "runs_with_callback_editing_the_state_pairs": 20, "descent_checked": 2000, "__nontrivial__": 250}
 
 
 def judge_subspace(out, x, xc, g, lb, ub, B, xbar, where, tags, mats=None):
@@ -165,7 +165,10 @@ def cases(tier, seed):
         ps = gen.rand_spec(rng, fams, nmax=10, boxes=("mixed", "boxed", "narrow", "lower", "upper", "boxed_degenerate", "none"),
                            starts=("face", "vertex", "outward", "interior"))
         yield {"kind": "run", "problem": ps, "maxcor": int(rng.integers(1, 8)), "maxiter": int(rng.integers(5, 30)),
-               "eps_SY": float(gen.pick(rng, [2.2e-16, 2.2e-16, 1e-3, 1e-2, 0.1]))}
+               "eps_SY": float(gen.pick(rng, [2.2e-16, 2.2e-16, 1e-3, 1e-2, 0.1])),
+               "restart_after": int(rng.integers(2, 8)) if i % 3 == 1 else 0,
+               "restart_scaler": float(np.exp(rng.uniform(np.log(1e-3), np.log(1e2)))) if i % 2 == 1 else None,
+               "cb_edits_pairs": bool(i % 4 == 2)}
     del itertools
 
 
@@ -278,9 +281,34 @@ def run(spec):
                     out.violate("subspace_mutated_inputs", "subspace_minimization modified x or grad in place", source="run")
 
             cfg = dict(jac="callable", maxcor=spec["maxcor"], maxiter=spec["maxiter"], ftol=0.0, gtol=1e-10, maxfun=3000, eps_SY=spec.get("eps_SY", 2.2e-16))
+            hooks = {}
+            if spec.get("cb_edits_pairs"):
+                # a callback that converts the correction pairs of the state it is handed to other units, in place (the state is the
+                # user's to keep: whatever it holds must not be the solver's working storage)
+                cfg["cb"] = "never"
+                out.count("runs_with_callback_editing_the_state_pairs")
+
+                def on_cb(i, xk, state):
+                    state.hess_inv.sk *= 1e3
+                    state.hess_inv.yk *= 1e-3
+                    return False
+
+                hooks["on_cb"] = on_cb
             with probes.Intercept(M, ["subspace_minimization"]) as ic:
                 ic.on_event = on_event
-                tr = probes.run_min(P, cfg)
+                if spec.get("restart_after"):
+                    first = probes.run_min(P, dict(cfg, maxiter=spec["restart_after"]), hooks=hooks)
+                    if first.exc is None and first.result.nit == spec["restart_after"]:
+                        out.count("restarted_runs")
+                        c2 = dict(cfg)
+                        if spec.get("restart_scaler"):
+                            c2["scaler"] = spec["restart_scaler"]  # a gradient scaler introduced on the restart leg
+                            out.count("restarted_runs_with_gradient_scaler")
+                        tr = probes.run_min(P, c2, hooks=hooks, checkpoint=first.result, x0=np.array(first.result.x, dtype=float, copy=True))
+                    else:
+                        tr = first
+                else:
+                    tr = probes.run_min(P, cfg, hooks=hooks)
             for ev in ic.events:
                 if "exc" in ev:
                     out.violate("subspace_raised", f"run: subspace_minimization raised {ev['exc']!r}", source="run")
